@@ -6,19 +6,19 @@ Import ListNotations.
 (** the handlers of the source are the handlers the model transcribes: names checked, fids looked
     up, wrappers, guards in order with their errno (rendered from [guards_of]), backend calls with
     their arguments, InsertFID/DeleteFID, deferred DecRefs, the recover in connState.handle *)
-Theorem HandlerGen_matches_model : handler_traces = model_traces.
+Theorem HandlerGen_matches_model : handler_traces_alpha = model_traces.
 Proof. vm_compute. reflexivity. Qed.
 
 Theorem HandlerGen_names_before_lookups :
-  forallb (fun e => names_first false (snd e)) handler_traces = true.
+  forallb (fun e => names_first false (snd e)) handler_traces_alpha = true.
 Proof. vm_compute. reflexivity. Qed.
 
 Theorem HandlerGen_lookups_deferred :
-  forallb (fun e => lookups_deferred (snd e)) handler_traces = true.
+  forallb (fun e => lookups_deferred (snd e)) handler_traces_alpha = true.
 Proof. vm_compute. reflexivity. Qed.
 
 Theorem HandlerGen_calls_inside_wrapper :
-  forallb (fun e => calls_inside false (snd e)) handler_traces = true.
+  forallb (fun e => calls_inside false (snd e)) handler_traces_alpha = true.
 Proof. vm_compute. reflexivity. Qed.
 
 (** C09: every string field of a T-message that is a path component is passed to checkSafeName
@@ -36,7 +36,7 @@ Qed.
 
 (** C15: the lock sites of the source are the audited ones, each released by defer or with nothing
     that can fail in between (a non-deferred unlock after a backend call or a callback re-opens this) *)
-Theorem HandlerGen_lock_sites : lock_sites = lock_sites_expected.
+Theorem HandlerGen_lock_sites : lock_sites_alpha = lock_sites_expected.
 Proof. vm_compute. reflexivity. Qed.
 Theorem HandlerGen_locks_released : locks_released = true.
 Proof. vm_compute. reflexivity. Qed.
